@@ -763,12 +763,22 @@ fn fam_treasury(r: &mut Rng) -> Result<(), String> {
     cands.push(vec![rt(9, "utia", "uosmo")]);
     cands.push(vec![rt(1, "utia", "uatom")]);
     cands.push(vec![rt(1, "utia", "uosmo"), rt(1, "utia", "uosmo")]);
+    // allow-listed routes with the letter case of the denoms changed: different denoms
+    for a in &routes {
+        if !a.is_empty() {
+            cands.push(a.iter().map(|h| rt(h.pool_id, &h.token_in_denom.to_uppercase(), &h.token_out_denom)).collect());
+            cands.push(a.iter().map(|h| rt(h.pool_id, &h.token_in_denom, &h.token_out_denom.to_uppercase())).collect());
+        }
+    }
     let route = cands[(r.next() % cands.len() as u64) as usize].clone();
     let who = r.pick(&[USER, USER, ADMIN, USER2]);
-    let denom = r.pick(&["utia", "uosmo", "uusdc", "uatom"]);
+    let denom = if r.next() % 4 == 0 && !route.is_empty() { if r.next() % 2 == 0 { route[0].token_in_denom.clone() } else { route.last().unwrap().token_out_denom.clone() } } else { r.pick(&["utia", "uosmo", "uusdc", "uatom"]).to_string() };
+    let denom = denom.as_str();
     let amt = r.amount();
     let lim = r.amount();
-    let allowed = !route.is_empty() && routes.iter().any(|a| *a == route);
+    // identical = same hops in the same order, compared field by field (not through the crate's own `==`)
+    let same = |x: &Vec<tre::SwapRoute>, y: &Vec<tre::SwapRoute>| x.len() == y.len() && x.iter().zip(y.iter()).all(|(p, q)| p.pool_id == q.pool_id && p.token_in_denom == q.token_in_denom && p.token_out_denom == q.token_out_denom);
+    let allowed = !route.is_empty() && routes.iter().any(|a| same(a, &route));
     let swap_in = r.next() % 2 == 0;
     let ctx = format!("sender {who} route {route:?} denom {denom} amount {amt} limit {lim}");
     let before = dump(&deps.storage);
